@@ -39,7 +39,8 @@ func (c18) Components() map[string]string {
 }
 
 var c18EnvFaults = []string{"none", "diff-digest", "diff-size", "diff-mediatype", "drop-annotation", "alter-annotation", "add-annotation", "extra-payload-member", "extra-descriptor-member",
-	"spelling-TargetArtifact", "dup-good-then-bad", "dup-bad-then-good", "null-then-capital", "null-target", "other-format", "type-string-mismatch", "corrupt", "wrong-payload-type", "replay", "garbage", "empty", "corrupt-mid", "corrupt-payload", "rename-annotation", "drop-one-add-two", "recase-annotation-key"}
+	"spelling-TargetArtifact", "dup-good-then-bad", "dup-bad-then-good", "null-then-capital", "null-target", "other-format", "type-string-mismatch", "corrupt", "wrong-payload-type", "replay", "garbage", "empty", "corrupt-mid", "corrupt-payload", "rename-annotation", "drop-one-add-two", "recase-annotation-key",
+	"omit-digest", "omit-size", "omit-mediatype", "omit-annotations", "empty-target", "empty-payload"}
 var c18RawFaults = []string{"none", "describe-keyid", "describe-keyspec-garbage", "describe-keyspec-mismatch", "sign-keyid", "chain-other-key", "chain-empty", "chain-garbage", "sig-corrupt", "sig-other-payload", "sig-empty", "chain-reordered"}
 
 // op: I = [task, blob(0/1), key idx, format, envelope capability(0/1), fault idx, nannots]
@@ -55,11 +56,12 @@ func (c18) Gen(r *rand.Rand, tier string, idx int) *core.Plan {
 		}
 	}
 	p.World["envelope"] = int64(r.IntN(2))
+	p.World["longlived"] = int64(r.IntN(2)) // one PluginSigner per signing host for all its calls, or a fresh one per call
 	for t := 0; t < ntasks; t++ {
 		for i, n := 0, 1+r.IntN(3); i < n; i++ {
 			fault := int64(0)
 			if r.IntN(4) != 0 {
-				fault = int64(1 + r.IntN(25))
+				fault = int64(1 + r.IntN(31))
 			}
 			p.Ops = append(p.Ops, core.Op{Task: t, Kind: "sign", I: []int64{int64(r.IntN(2)), int64(r.IntN(2)), fault, int64(r.IntN(3)), int64(r.IntN(1000))}})
 		}
@@ -211,6 +213,15 @@ func (l c18) Exec(env *core.Env) *core.Result {
 				delete(m, "annotations")
 			}
 			custom = mk(map[string]any{"targetArtifact": m})
+		case "omit-digest", "omit-size", "omit-mediatype", "omit-annotations":
+			// members left out altogether (they decode to nothing, not to a wrong value)
+			m := clone()
+			delete(m, map[string]string{"omit-digest": "digest", "omit-size": "size", "omit-mediatype": "mediaType", "omit-annotations": "annotations"}[fault])
+			custom = mk(map[string]any{"targetArtifact": m})
+		case "empty-target":
+			custom = []byte(`{"targetArtifact":{}}`)
+		case "empty-payload":
+			custom = []byte(`{}`)
 		case "extra-payload-member":
 			custom = []byte(`{"targetArtifact":` + gj + `,"extra":"member"}`)
 		case "extra-descriptor-member":
@@ -272,6 +283,7 @@ func (l c18) Exec(env *core.Env) *core.Result {
 		t := t
 		sim.Go("signer", func() {
 			ctx := context.Background()
+			var longLived *signer.PluginSigner
 			for oi, op := range p.Ops {
 				if op.Task != t {
 					continue
@@ -283,12 +295,24 @@ func (l c18) Exec(env *core.Env) *core.Result {
 					fault = faultList[int(f)%len(faultList)]
 				}
 				keyID := fmt.Sprintf("key-%d", oi)
-				faultOf[keyID] = fault
-				ps, err := signer.NewPluginSigner(pl, keyID, nil)
-				if err != nil {
-					res.Violate("HARNESS/pluginsigner", "", "%v", err)
-					return
+				if p.W("longlived") == 1 {
+					keyID = fmt.Sprintf("key-of-host-%d", t)
 				}
+				faultOf[keyID] = fault
+				var ps *signer.PluginSigner
+				if p.W("longlived") == 1 && longLived != nil {
+					ps = longLived
+					res.Probe("plugin_signer_reused")
+				} else {
+					var err error
+					ps, err = signer.NewPluginSigner(pl, keyID, nil)
+					if err != nil {
+						res.Violate("HARNESS/pluginsigner", "", "%v", err)
+						return
+					}
+					longLived = ps
+				}
+				var err error
 				annots := map[string]string{}
 				for i := int64(0); i < op.Int(3); i++ {
 					annots[fmt.Sprintf("org.example/%d", i)] = fmt.Sprintf("v%d-%d", oi, i)
@@ -314,7 +338,7 @@ func (l c18) Exec(env *core.Env) *core.Result {
 				if err == nil {
 					verdict = "signature"
 				}
-				key := fmt.Sprintf("fault=%s blob=%v key=%s fmt=%s envelope-capability=%v annotations=%d", fault, isBlob, kind, format[12:], envelopeCap, len(annots))
+				key := fmt.Sprintf("fault=%s blob=%v key=%s fmt=%s envelope-capability=%v annotations=%d long-lived=%d", fault, isBlob, kind, format[12:], envelopeCap, len(annots), p.W("longlived"))
 				trace = append(trace, map[string]any{"task": t, "op": key, "verdict": verdict, "err": fmt.Sprint(err)})
 				sim.Abstract(fmt.Sprint(t, key, verdict))
 				if fault != "none" {
